@@ -153,7 +153,8 @@ Proof.
       destruct m; try discriminate Hs.
       * unfold string_merge. eapply nit_bind; [apply nit_len_tail|]. intros v s1 _.
         destruct (utf8_valid _); [apply nit_ret; exact I|apply nit_fail; discriminate].
-      * apply nit_len_tail.
+      * unfold faststr_merge. eapply nit_bind; [apply nit_len_tail|]. intros v s1 _.
+        destruct (utf8_valid _); [apply nit_ret; exact I|apply nit_fail; discriminate].
       * apply nit_len_tail.
 Qed.
 
